@@ -6,6 +6,7 @@ import (
 	"math/rand"
 	"os"
 	"strings"
+	"time"
 
 	"verif/sys"
 	"verif/vf"
@@ -71,3 +72,45 @@ func scenDev(c *vf.Ctx) {
 }
 
 func init() { All["SCENDEV"] = scenDev }
+
+// DESIGNDEV measures one exhaustive design check of System.tla (development aid for fitting the thorough bounds):
+// VERIF_CFG as for SCENDEV (plus thr1/thr2), VERIF_KINDS comma separated, VERIF_MAXRPC, VERIF_MAXSTIMS.
+func designDev(c *vf.Ctx) {
+	cfg := sys.Config{Threads: []string{"c1"}}
+	for _, wd := range strings.Fields(os.Getenv("VERIF_CFG")) {
+		switch {
+		case wd == "small":
+			cfg.Small = true
+		case wd == "soft":
+			cfg.Soft = true
+		case wd == "gateu":
+			cfg.GateU = true
+		case wd == "manual":
+			cfg.Manual = true
+		case wd == "thr2":
+			cfg.Threads = []string{"c1", "c2"}
+		case strings.HasPrefix(wd, "pt:"):
+			cfg.Points = append(cfg.Points, wd[3:])
+		}
+	}
+	atoi := func(s string, d int) int {
+		var n int
+		if _, err := fmt.Sscanf(os.Getenv(s), "%d", &n); err != nil {
+			return d
+		}
+		return n
+	}
+	kinds := strings.Split(os.Getenv("VERIF_KINDS"), ",")
+	name, mod, cf := sysModule("design", cfg, atoi("VERIF_MAXRPC", 1), atoi("VERIF_MAXSTIMS", 5), kinds, cfg.Points, "TypeOK StreamInvs OneWrite")
+	cf = strings.Replace(cf, "Gen = FALSE", "Gen = TRUE", 1)
+	res, err := vf.TLC(vf.TLCOpts{Module: name, Cfg: cf, Extra: map[string]string{name + ".tla": mod}, Workers: 6, Timeout: 20 * time.Minute, HeapMB: 8000})
+	if err != nil {
+		fmt.Println("tlc:", err)
+		return
+	}
+	fmt.Printf("DESIGN %s kinds=%v maxRPC=%s maxStims=%s: finished=%v violated=%q generated=%d distinct=%d depth=%d wall=%.1fs\n", cfgString(cfg), kinds,
+		os.Getenv("VERIF_MAXRPC"), os.Getenv("VERIF_MAXSTIMS"), res.Finished, res.Violated, res.Generated, res.Distinct, res.Depth, res.Wall.Seconds())
+	c.EvalN(1)
+}
+
+func init() { All["DESIGNDEV"] = designDev }
